@@ -92,6 +92,20 @@ Proof.
   intros H. apply strings_to_nodes_ok in H. induction H as [|a n A N [HP HL] HF IH]; constructor; eauto.
 Qed.
 
+(* the error stringsToNodes returns is the parse error of the first entry that fails (or "compound") *)
+Lemma strings_to_nodes_error A er : strings_to_nodes T A = Err er ->
+  er = ECompoundAllowed \/ exists A1 a A2, A = A1 ++ a :: A2 /\ parse T a = Err er /\ Forall (fun x => validb T x = true) A1.
+Proof.
+  induction A as [|a A IH]; simpl; [discriminate|].
+  destruct (parse T a) as [n|e| |] eqn:EP; try discriminate.
+  - destruct (is_leaf n); [|intros H; inversion H; left; reflexivity].
+    destruct (strings_to_nodes T A) as [ns|e'| |] eqn:ES; try discriminate.
+    intros H; inversion H; subst. destruct (IH eq_refl) as [->|[A1 [b [A2 [-> [Hb HF]]]]]]; [left; reflexivity|].
+    right. exists (a :: A1), b, A2. split; [reflexivity|]. split; [assumption|]. constructor; [|assumption].
+    unfold validb. rewrite EP. reflexivity.
+  - intros H; inversion H; subst. right. exists [], a, A. auto.
+Qed.
+
 Lemma sort_and_dedup_leaves N : Forall (fun n => is_leaf n = true) N -> exists N', sort_and_dedup N = Ok N'.
 Proof.
   intros F. destruct N as [|n0 [|n1 N]]; [eexists; reflexivity|eexists; reflexivity|].
